@@ -166,7 +166,9 @@ class Bench:
         if form == "es_noise":
             return self.E(clean.copy(), noise.copy())
         if form == "es_c":
-            return self.E(clean.astype(complex), noise.astype(complex))
+            # complex dtype whose imaginary part is pure round-off (what an FFT-based block leaves behind)
+            eps = 1e-16 * np.abs(clean) * np.cos(np.arange(clean.size))
+            return self.E(clean + 1j * eps, noise.astype(complex))
         if form == "arr_c":
             return (clean + noise).astype(complex)
         if form == "es":
